@@ -755,8 +755,8 @@ def run(ctx, ck):
     check_junction_loads(ctx, ck)
     # R-CACHE for the per-object skin cache (shared with C14)
     from .C14 import run_cache_rule
-    sites_, n_ = run_cache_rule(ctx, ck, only={('mininec.Skin_Effect_Load.impedance', 'zint'),
-                                               ('mininec.Insulation_Load.impedance', 'zins')}, rule='R-CACHE.owner-only')
+    sites_, n_ = run_cache_rule(ctx, ck, only={('*', 'zint'),
+                                               ('*', 'zins')}, rule='R-CACHE.owner-only')
     ck.floor('per-object caches of distributed loads', n_, 2)
     ck.rule('R-CACHE.owner-only', 'cached per-length impedance depends only on its owner or is keyed')
     # every solve starts from a freshly filled matrix: the loads are added to the diagonal with +=, a matrix
